@@ -434,6 +434,7 @@ type FollowPlan struct {
 	Order        []int    `json:"order,omitempty"` // permutation of peers+liars as handed to the daemon
 	WrongHash    bool     `json:"wrong_hash,omitempty"`
 	InfoLiarLast bool     `json:"info_liar_last,omitempty"`
+	KeyScheme    string `json:"key_scheme,omitempty"` // scheme of the follower's own key pair when it is not the chain's
 }
 
 type CheckPlan struct {
